@@ -35,6 +35,9 @@ def gen_shape(g, i):
         shape["title"] = tok.decode()
     if kind != "error" and g.random() < 0.2:
         shape["aslist"] = True
+    elif kind in ("fixed", "stream") and g.random() < 0.2:
+        shape["retval"] = True      # body generator that ends with 'return <last piece>'
+
     if kind in ("empty", "nolen-empty") and g.random() < 0.5:      # responses that never carry a body: HEAD, 204, 304
         if g.random() < 0.5:
             shape["method"] = "HEAD"
@@ -59,7 +62,7 @@ class C31(Check):
                            "ioflo.aio.tcp Client/Server/Incomer (+Tls classes over the stub)"],
                   "stub": ["socket module", "TLS record layer", "WSGI application (plan driven)"]}
     assumptions = ["responses are read from Patron.responses after the run (a client may queue requests and collect later)"]
-    required_probes = ["n>=3", "stream-after-stream", "error-shape", "tls", "progressive", "partial-delivery", "completed", "empty-item-with-length-0", "list-app", "bodyless-without-length-then-another", "bodyless-with-declared-length-then-another"]
+    required_probes = ["n>=3", "stream-after-stream", "error-shape", "tls", "progressive", "partial-delivery", "completed", "empty-item-with-length-0", "list-app", "bodyless-without-length-then-another", "bodyless-with-declared-length-then-another", "generator-return-value"]
     quick_runs = 6000
     thorough_runs = 300000
     shrink_fields = ["schedule", "shapes"]
@@ -116,6 +119,8 @@ class C31(Check):
             out.probe("empty-item-with-length-0")
         if any(s.get("aslist") for s in shapes):
             out.probe("list-app")
+        if any(s.get("retval") and s["kind"] == "stream" for s in shapes[:-1]):
+            out.probe("generator-return-value")
         if any(s.get("declared") for s in shapes[:-1]):
             out.probe("bodyless-with-declared-length-then-another")
         if any((s.get("method") == "HEAD" or s["status"][:3] in ("204", "304")) and s["kind"] == "nolen-empty" for s in shapes[:-1]):
